@@ -141,6 +141,17 @@ WMovePkgIn ==
            @@ (<<"p", "t">> :> <<>>) @@ (PB :> LibB(PB)) @@ (T :> <<>>),
          {P}, <<<<"p", "a">>>>, {<<"p", "s">>}, {<<"p", "t">>, T}, {}, {}, {})
 
+\* as movepkgin, and the destination p.t (which has a top-level namesake t) defines h: a client may
+\* already have a relative  from .t import h  when a definition moves to the top-level t
+WMovePkgRel ==
+  MWorld("movepkgrel",
+         (<<"p", "a">> :> <<>>) @@ (P :> <<>>) @@ (<<"p", "s">> :> <<From(1, <<"b">>, <<FromItem("g", "")>>),
+                                                          FnR("f", <<"p", "s">>, <<<<"g">>>>),
+                                                          Fn("k", <<"p", "s">>)>>)
+           @@ (<<"p", "t">> :> <<Fn("h", <<"p", "t">>)>>) @@ (PB :> LibB(PB)) @@ (T :> <<>>),
+         {P}, <<<<"p", "a">>>>, {<<"p", "s">>}, {<<"p", "t">>, T}, {}, {}, {})
+WorldsMovePkgRel == {WMovePkgRel}
+
 \* the destination already refers to the source: after the move it has the name itself
 WMoveBack ==
   MWorld("moveback",
@@ -226,6 +237,16 @@ WorldsReexp == {WReexp, WReexpAttr}
 WorldsPkg == {WPkg}
 WorldsInit == {WInit, WInit0}
 WorldsDeep == {WDeep, WDeepIn}
+
+\* three package levels: the tidied module p.q.r.a can use relative imports of level 1, 2 and 3;
+\* p.b and p.q.b are namesakes one level apart (a wrong number of levels finds the other one)
+PQR == <<"p", "q", "r">>
+WDeep3 ==
+  World("deep3",
+        (P :> <<>>) @@ (PQ :> <<>>) @@ (PQR :> <<>>) @@ (PB :> LibB(PB)) @@ (<<"p", "q", "b">> :> LibC(<<"p", "q", "b">>))
+          @@ (<<"p", "q", "r", "a">> :> <<>>),
+        {P, PQ, PQR}, <<<<"p", "q", "r", "a">>>>, {<<"p", "q", "r", "a">>})
+WorldsDeep3 == {WDeep3}
 WorldsPkgDeep == {WPkg, WDeep}
 WorldsPkgDeepIn == {WPkg, WDeep, WDeepIn}
 
